@@ -17,10 +17,15 @@ Verdict(o) == CASE o.a = "GenRot" -> GenRotVerdict(o.arg, o.obs)
                 [] o.a = "GenHalf" -> GenHalfVerdict(o.arg, o.obs)
                 [] o.a = "GenSlerp" -> GenSlerpVerdict(o.arg, o.obs)
                 [] o.a \in {"GenMat3", "GenMat2"} -> GenMatVerdict(o.arg, o.obs)
+                [] o.a = "GenFrame" -> GenFrameVerdict(o.arg, o.obs)
+                [] o.a = "GenLookat" -> GenLookatVerdict(o.arg, o.obs)
                 [] OTHER -> "unknown-operation"
 IsSkip(v) == Len(v) >= 5 /\ SubSeq(v, 1, 5) = "skip:"
 ClassOf(o) == CASE o.a = "GenRot" -> (IF o.obs.nan \/ ~InRangeM(o.obs.R1) THEN "unclassified" ELSE GenRotClass(o.arg, o.obs))
                 [] o.a = "GenSlerp" -> PairClass(o.arg.ha, o.arg.hb)
+                [] o.a = "GenFrame" -> GenFrameClass(o.arg)
+                [] o.a = "GenLookat" -> GenLookatClass(o.arg)
+                [] o.a \in {"GenMat3", "GenMat2"} -> (IF o.arg.e = 0 THEN "unscaled" ELSE IF o.arg.e > 0 THEN "scaled-up" ELSE "scaled-down")
                 [] OTHER -> "all"
 
 \* class used in the signature of a rejection: coarse, so that one defect gives one family of signatures
@@ -29,6 +34,9 @@ BranchLaws == {"quaternion-from-matrix-is-not-the-same-rotation", "quaternion-fr
 SigClass(o, v) == CASE o.a = "GenRot" -> (IF v \in BranchLaws /\ ~o.obs.nan /\ InRangeM(o.obs.R1) THEN "branch=" \o QuatBranch(o.obs.R1)
                                           ELSE IF Abs(o.arg.a.q) >= 2 \/ Abs(o.arg.b.q) >= 2 THEN "angle-beyond-pi-or-near" ELSE "angle-within-pi")
                   [] o.a = "GenSlerp" -> PairClass(o.arg.ha, o.arg.hb)
+                  [] o.a = "GenFrame" -> GenFrameClass(o.arg)
+                  [] o.a = "GenLookat" -> GenLookatClass(o.arg)
+                  [] o.a \in {"GenMat3", "GenMat2"} -> (IF o.arg.e = 0 THEN "unscaled" ELSE IF o.arg.e > 0 THEN "scaled-up" ELSE "scaled-down")
                   [] OTHER -> "general"
 
 \* evaluated once per record
